@@ -13,6 +13,10 @@ CLAIMED = {
          "Inbound segmentation-independence (any opener, any state, any list of reads), inbound correctness for any accessory frame sizes, rejection of a non-authenticating frame with nothing delivered after it, 'only opener outputs are delivered', and outbound chunking/decodability by a spec reader are Lean theorems with no bound on sizes or number of reads; the tie is differential on send_bytes/data_received with every single and double cut of small streams and every single-bit corruption.",
          "Lean kernel; standard axioms; translator (1024, TAG_LENGTH, struct formats); differential harness; the executable Lean ChaCha20-Poly1305 is validated against `cryptography` each run, its security is assumed; asyncio closes the transport when data_received raises.",
          "4/C05"),
+ "C17": ("Lean 4 theorems (induction over fragments / batch items) on models of encode_pdu, decode_pdu, _read_pdu and the CoAP batch codec + differential correspondence",
+         "Fragments-fit and request reassembly for every fragment size >= 8 and body, response reassembly for every accessory fragmentation, rejection of wrong tid / missing continuation flag, CoAP positional decoding for every outcome vector and id attribution are Lean theorems; the tie is differential over the exhaustive (fs,len) grid, all fragmentations of small bodies, all outcome vectors of small batches and malformed inputs.",
+         "Lean kernel; standard axioms; translator (struct formats, status enums, overheads, flags); differential harness; GATT transport replaced by a scripted characteristic; executable Lean AEAD validated per run.",
+         "4/C17"),
 }
 
 NOT_YET = {}
